@@ -360,7 +360,7 @@ THEOREMS = [
 ]
 
 _SREQ = ["From Coq Require Import List NArith ZArith Bool.",
-         "From MS Require Import Base.Bytes Base.Outcome Base.Cursor Base.Adapters Base.Async Base.AsyncSpec Base.AsyncSan Base.AsyncSanProofs Mp4.San "
+         "From MS Require Import Base.Bytes Base.Outcome Base.Cursor Base.Adapters Base.Async Base.AsyncSpec Base.AsyncSan Base.AsyncSanProofs Base.StackReader Base.StackSpec Mp4.San "
          "Gen.Consts Props.C12s.", "From MS Require Base.Prog.", "Open Scope N_scope."]
 THEOREMS = THEOREMS + [
     ("C12_sanitizer_ops_sched_indep", """forall (cap : N) (A : areader), sched_indep_core A ->
@@ -380,7 +380,14 @@ THEOREMS = THEOREMS + [
                 Some (fst (run_san_sync BOXHEADER_MAX_SIZE (pending_reader R) (sanitize_prog cfg fuel) s),
                       snd (run_san_sync BOXHEADER_MAX_SIZE (pending_reader R) (sanitize_prog cfg fuel) s), sc')"""),
 ]
-REQUIRES_FOR = {"C12_sanitizer_ops_sched_indep": _SREQ, "C12_mp4_sanitizer_sched_indep": _SREQ,
+THEOREMS = THEOREMS + [
+    ("C12_mp4_async_is_model", """forall (cfg : config) (fuel : nat) (ms : N) (st : stk) (data : bytes) (inp : Prog.input) (sc : sch),
+  stk_ok st -> blen data <= I64MAX -> ms_ok (blen data) ms -> inp_is inp data ->
+  exists s' sc',
+    run_san_sched BOXHEADER_MAX_SIZE (pending_reader (stk_reader ms st)) (sanitize_prog cfg fuel) (stack_init ms st data) sc
+    = Some (mp4_sanitize cfg true ms inp fuel, s', sc')"""),
+]
+REQUIRES_FOR = {"C12_mp4_async_is_model": _SREQ, "C12_sanitizer_ops_sched_indep": _SREQ, "C12_mp4_sanitizer_sched_indep": _SREQ,
                 "C12_mp4_sanitizer_native_sched_indep": _SREQ}
 COQ_TARGETS = COQ_TARGETS + ["theories/Props/C12s.vo"]
 COQCHK = COQCHK + ["MS.Props.C12s"]
@@ -391,7 +398,8 @@ LEVEL_TEXT = ("Theorems (Coq, for ALL schedules, by induction on the schedule): 
               "Pending schedule, complete with exactly the value and reader state of the all-Ready run; lifted to every adaptive client programme "
               "(C12_prog_sched_indep) that does not ask a seek-based adapter for the stream length, and to the MP4 sanitizer's own programme "
               "(fill_buf().is_empty(), read_exact, skip, position, length over futures BufReader(32), Mp4/San.v's sanitize_prog, every config and "
-              "input: C12_mp4_sanitizer_sched_indep). SeekSkipAdapter::poll_stream_len is REFUTED "
+              "input: C12_mp4_sanitizer_sched_indep), and composed with C11's stack refinement: under every schedule the async run over any adapter "
+              "stack on in-memory data returns what the abstract model mp4_sanitize returns (C12_mp4_async_is_model). SeekSkipAdapter::poll_stream_len is REFUTED "
               "(C12_poll_stream_len_refuted, finding D7) and proved for every schedule that does not suspend its restoring seek. Plus "
               "model/implementation correspondence under every subset of <= 3 suspended polls, and sanitizer-level runs of mp4san::sanitize_async "
               "against the synchronous result. 'For every Pending schedule' is a universally quantified statement: a proof by induction on the "
